@@ -130,16 +130,27 @@ def run_doc_case(a):
     root = common.scratch("c19d")
     try:
         make_project(os.path.join(root, "src-tauri"), "only_cmd")
-        text = json.dumps(doc, ensure_ascii=rnd.random() < 0.5, indent=rnd.choice([None, 2, 4]))
-        # make some integers appear in other lexical forms
-        docp = os.path.join(root, "src-tauri", "tauri.conf.json")
-        open(docp, "w").write(text)
-        before = exact_load(text)
         settings = {"project_path": rnd.choice(["./src-tauri", os.path.join(root, "src-tauri"), "src-tauri"]), "output_path": rnd.choice(["./gen", "../web/src/api", os.path.join(root, "o u t"), "gen\\ts", "g\u00e9n/\u65e5\u672c", "it's \"quoted\"/out", "a//b/./c/", "tab\there"]),
                     "validation_library": rnd.choice(["none", "zod"]), "verbose": rnd.choice([None, True, False]), "visualize_deps": rnd.choice([None, True, False]),
                     "include_private": rnd.choice([None, True, False]), "force": rnd.choice([None, True, False]),
                     "type_mappings": rnd.choice([None, {}, {"PathBuf": "string"}, {"DateTime<Utc>": "string", "Uuid": "string", "é": "number"}]),
                     "exclude_patterns": rnd.choice([None, [], ["target/**", "*.bak"]]), "include_patterns": rnd.choice([None, ["src/**/*.rs"]])}
+        if pmode == "with-typegen" and idx % 2 == 0:
+            # the entry that is already there agrees with what is about to be written in everything but ONE setting
+            same = {"projectPath": "./src-tauri" if via == "init" else settings["project_path"], "outputPath": settings["output_path"], "validationLibrary": settings["validation_library"],
+                    "verbose": bool(settings["verbose"]), "visualizeDeps": False if via == "init" else bool(settings["visualize_deps"]),
+                    "includePrivate": False if via == "init" else bool(settings["include_private"]), "force": False if via == "init" else bool(settings["force"]),
+                    "typeMappings": None if via == "init" else settings["type_mappings"], "excludePatterns": None if via == "init" else settings["exclude_patterns"],
+                    "includePatterns": None if via == "init" else settings["include_patterns"]}
+            flip = ["force", "verbose", "visualizeDeps", "includePrivate"][(idx // 2) % 4]
+            same[flip] = not same[flip]
+            doc["plugins"]["typegen"] = same
+            pmode = "with-typegen-differing-only-in-" + flip
+        text = json.dumps(doc, ensure_ascii=rnd.random() < 0.5, indent=rnd.choice([None, 2, 4]))
+        # make some integers appear in other lexical forms
+        docp = os.path.join(root, "src-tauri", "tauri.conf.json")
+        open(docp, "w").write(text)
+        before = exact_load(text)
         viol = []
         if via == "init":
             argv = [cli, "tauri-typegen", "init", "-p", "./src-tauri", "-g", settings["output_path"], "-v", settings["validation_library"]]
